@@ -13,6 +13,7 @@ RULE = ('Liveness restated as bounded progress at quiescence.  cache mode: case 
         'must be resumed; non-trivial = execution in which receivers were paused at least once; distinct = interleavings / '
         'sequences')
 RULE_MORE = (' Also relay configurations without flow control (nobody may end up paused) and sub-second points in the cache workloads.')
+RULE_MORE = RULE_MORE + ' Rounds 10-11: the late-receiver observation counts pause requests on the new transport; closes requested by carbon may take effect later; a directed connection-quality-reset family; more schedules for caches of 1-2 datapoints.'
 RULE = RULE + RULE_MORE
 EXHAUSTIVE = {'quick': False, 'thorough': False}
 EXHAUSTIVE_OVER = 'cache mode: all single-preemption schedules per workload; relay mode: all applicable sequences up to length L per prefix'
